@@ -2,6 +2,7 @@
 
 #include <algorithm>
 #include <cmath>
+#include <limits>
 #include <sys/stat.h>	 //required to create a folder
 #include <sys/types.h>	 // required for stat.h
 
@@ -142,7 +143,7 @@ std::vector<double> Import_List(std::string filepath, double dimension, unsigned
 	if(inputfile.good())
 	{
 		for(unsigned int i = 0; i < ignored_initial_lines; i++)
-			inputfile.ignore(10000, '\n');
+			inputfile.ignore(std::numeric_limits<std::streamsize>::max(), '\n');
 		double x;
 		while(inputfile >> x)
 			data.push_back(x * dimension);
@@ -179,7 +180,7 @@ std::vector<std::vector<double>> Import_Table(std::string filepath, std::vector<
 	if(inputfile.good())
 	{
 		for(unsigned int i = 0; i < ignored_initial_lines; i++)
-			inputfile.ignore(10000, '\n');
+			inputfile.ignore(std::numeric_limits<std::streamsize>::max(), '\n');
 		double x;
 		while(inputfile >> x)
 			data_aux.push_back(x);
